@@ -17,10 +17,10 @@ INFO = {
              'tables, with and without total preservation. Distinct = distinct descriptor; non-trivial = every pair (each evaluates the '
              'mapping of all target blocks against brute force).'),
     'require': {
-        'quick': {'counters': {'pairs': 300, 'target_blocks_checked': 10000, 'incon_transfers': 250, 'model_transfers': 80,
+        'quick': {'counters': {'pairs': 300, 'target_blocks_checked': 10000, 'incon_transfers': 250, 'incon_transfers_default_mappings': 83, 'model_transfers': 80,
                                'above_surface_corrections': 50, 'self_mappings': 250},
                   'seen': {'atmosphere_combination': 9, 'incon_atmosphere_branch': 5}, 'nontrivial': 250},
-        'thorough': {'counters': {'pairs': 5500, 'target_blocks_checked': 400000, 'incon_transfers': 4000, 'model_transfers': 1200,
+        'thorough': {'counters': {'pairs': 5500, 'target_blocks_checked': 400000, 'incon_transfers': 4000, 'incon_transfers_default_mappings': 1333, 'model_transfers': 1200,
                                   'above_surface_corrections': 2000, 'self_mappings': 1200},
                      'seen': {'atmosphere_combination': 9, 'incon_atmosphere_branch': 5}, 'nontrivial': 4000},
     },
@@ -257,6 +257,20 @@ def check_incon_transfer(ctx, S, T, case, combo, own_mapping):
     if snapshot_incon(src) != before:
         ctx.violation('incon-transfer:source-altered', 'the source initial conditions were modified by the transfer', case)
         return
+    if all(v is not None for v in own_mapping[0].values()):
+        # the same transfer with the mappings left to the library (default arguments): state kept between calls
+        # in this process (earlier pairs) must not leak into it
+        dst2 = t2i.t2incon()
+        with ctx.guard(case, where='incon-transfer-default-mappings:%s' % combo) as g:
+            dst2.transfer_from(src, S, T)
+        if g.raised is None:
+            ctx.count('incon_transfers_default_mappings')
+            if snapshot_incon(dst2) != snapshot_incon(dst):
+                a, b = snapshot_incon(dst), snapshot_incon(dst2)
+                k = next((i for i, (x, y) in enumerate(zip(a, b)) if x != y), min(len(a), len(b)))
+                ctx.violation('incon-transfer:default-mappings-differ', 'transfer_from() without explicit mappings gives %r at position %d, with the mappings %r' % (
+                    b[k] if k < len(b) else None, k, a[k] if k < len(a) else None), case)
+                return
     names = [b.block for b in dst]
     if names != list(T.block_name_list):
         ctx.violation('incon-transfer:block-list:%s' % combo, 'target incon blocks %r..., geometry announces %r...' % (names[:4], T.block_name_list[:4]), case)
